@@ -133,3 +133,40 @@ class CallGraph:
                     seen.add(c)
                     stack.append(c)
         return seen
+
+
+def named_call_sequence(prog, fn, names, cls_prefix, depth=0, seen=()):
+    """the calls of the functions in `names` that executing fn's body top to bottom meets, in statement order, looking
+    through helpers of the same class (a constructor that delegates its steps to a private init() still shows them)"""
+    out = []
+    body = fn.get("body") or {}
+    for s in (body.get("s") if body.get("k") == "Block" else [body]):
+        for c in calls_in(s):
+            q = callee_of(c)
+            if q in names:
+                out.append(q)
+            elif q.startswith(cls_prefix) and depth < 3 and q not in seen:
+                cands = [f for f in prog.fns(q) if len(f["params"]) == len(c.get("args", [])) and f.get("body") is not None and not f.get("special")]
+                if len(cands) == 1:
+                    out += named_call_sequence(prog, cands[0], names, cls_prefix, depth + 1, seen + (q,))
+    return out
+
+
+def event_sequence(prog, fn, names, fields, cls_prefix, depth=0, seen=()):
+    """like named_call_sequence, plus "write:<member>" events for direct writes of the listed members of *this"""
+    out = []
+    body = fn.get("body") or {}
+    for s in (body.get("s") if body.get("k") == "Block" else [body]):
+        for c in calls_in(s):
+            q = callee_of(c)
+            if q in names:
+                out.append(q)
+            elif q.startswith(cls_prefix) and depth < 3 and q not in seen:
+                cands = [f for f in prog.fns(q) if len(f["params"]) == len(c.get("args", [])) and f.get("body") is not None and not f.get("special")]
+                if len(cands) == 1:
+                    out += event_sequence(prog, cands[0], names, fields, cls_prefix, depth + 1, seen + (q,))
+        for e in exprs_of_stmt(s):
+            for tgt, node in writes_in_expr(e):
+                if is_this_field(tgt) and tgt["field"] in fields:
+                    out.append("write:" + tgt["field"])
+    return out
